@@ -534,8 +534,10 @@ pub fn judge(directed: bool, got: &Result<Obs, String>, exp: &Exp) -> Result<(),
                     if out != own {
                         return Err(format!("node {} has outgoing edges {:?}, listed {:?}", k, out, own));
                     }
-                    if multiset(inn) != multiset(inc) {
-                        return Err(format!("node {} has incoming edges {:?}, listed towards it {:?}", k, inn, inc));
+                    // the macros connect the listed edges in listing order, so the
+                    // incoming edges of a node are in the order they were listed, too
+                    if inn != inc {
+                        return Err(format!("node {} has incoming edges {:?}, listed towards it (in listing order) {:?}", k, inn, inc));
                     }
                 } else {
                     let mut all = own.clone();
